@@ -2,6 +2,7 @@ import OdakProofs.Lemmas.Kernels
 import OdakProofs.Lemmas.PropagateLemmas
 import OdakProofs.Lemmas.NumpyPipelines
 import OdakProofs.Lemmas.GenPipelines
+import OdakProofs.Lemmas.GenPipelinesMore
 
 /-! # C03 – propagation is linear and shift-equivariant (superposition principle) -/
 namespace Odak
@@ -158,5 +159,62 @@ theorem C03_gen_stack_linear {k n m : Nat} (us vs : CStack ℝ k n m) (H A : CGr
   show (Vector.map _ _)[i.val] = CGrid.add (CGrid.smul a (Vector.map _ _)[i.val]) (CGrid.smul b (Vector.map _ _)[i.val])
   rw [Vector.getElem_map, Vector.getElem_map, Vector.getElem_map, Vector.getElem_ofFn]
   exact (C03_custom_linear _ _ H A a b).1
+
+end Odak
+
+/-! ## The remaining NumPy propagation routines: `fraunhofer_inverse`, `rayleigh_sommerfeld` (direct summation),
+  `fraunhofer_equal_size_adjust` - hand model `OdakModel/PropagateMore.lean`, regenerated definitions
+  `OdakModel/Generated/PipelinesMore.lean`, ties `OdakProofs/Lemmas/GenPipelinesMore.lean`.
+  (`band_extended_angular_spectrum` and `adaptive_sampling_angular_spectrum` need the `finufft` package, which is not installed:
+  they are neither modelled nor regenerated; the C03 monitors count them as unavailable.) -/
+namespace Odak
+open Gen
+
+/-- linearity of the hand model: `fraunhofer_inverse` for EVERY array `c` the field is divided by and every `dx` (division by 0 included:
+    over ℝ `x / 0 = 0` is linear too), the direct summation for EVERY family of weights and final factor - in particular the
+    Rayleigh-Sommerfeld weights -, and the element of a window copied out of the field; the zero field maps to the zero field -/
+theorem C03_np_more_methods_linear {n m : Nat} (u v : CGrid ℝ n m) (s t : CGrid ℝ n n) (c : CGrid ℝ n m)
+    (W : Fin n → Fin n → Fin n → Fin n → Cx ℝ) (w a b : Cx ℝ) (dx lam k z : ℝ) (r0 c0 x y : Nat) :
+    npFraunhoferInverseWith c (CGrid.add (CGrid.smul a u) (CGrid.smul b v)) dx
+      = CGrid.add (CGrid.smul a (npFraunhoferInverseWith c u dx)) (CGrid.smul b (npFraunhoferInverseWith c v dx)) ∧
+    directSum W w (CGrid.add (CGrid.smul a s) (CGrid.smul b t))
+      = CGrid.add (CGrid.smul a (directSum W w s)) (CGrid.smul b (directSum W w t)) ∧
+    npRayleighSommerfeld (CGrid.add (CGrid.smul a s) (CGrid.smul b t)) dx lam k z
+      = CGrid.add (CGrid.smul a (npRayleighSommerfeld s dx lam k z)) (CGrid.smul b (npRayleighSommerfeld t dx lam k z)) ∧
+    CGrid.getN (CGrid.add (CGrid.smul a u) (CGrid.smul b v)) (r0 + x) (c0 + y)
+      = a * CGrid.getN u (r0 + x) (c0 + y) + b * CGrid.getN v (r0 + x) (c0 + y) ∧
+    npFraunhoferInverseWith c (CGrid.zero : CGrid ℝ n m) dx = CGrid.zero ∧
+    npRayleighSommerfeld (CGrid.zero : CGrid ℝ n n) dx lam k z = CGrid.zero :=
+  ⟨npFraunhoferInverseWith_linear c u v a b dx, directSum_linear W w s t a b, directSum_linear _ _ s t a b,
+   getN_linear u v a b _ _, npFraunhoferInverseWith_zero c dx, directSum_zero _ _⟩
+
+/-- the REGENERATED `fraunhofer_inverse`, `rayleigh_sommerfeld` (square fields: the only shapes the source accepts) and
+    `fraunhofer_equal_size_adjust` are linear in the field.  For the last one: the window `Gen.equalSizeWindowN n m dx lam z` is computed
+    from the shape of the field and `(dx, λ, z)` alone (it has no field argument), and every element of the copied window is a linear
+    function of the field -/
+theorem C03_gen_np_more_methods_linear {n m : Nat} (u v : CGrid ℝ n m) (s t : CGrid ℝ n n) (a b : Cx ℝ) (dx lam k z : ℝ) (r0 c0 x y : Nat) :
+    fraunhoferInverseN (CGrid.add (CGrid.smul a u) (CGrid.smul b v)) dx lam k z
+      = CGrid.add (CGrid.smul a (fraunhoferInverseN u dx lam k z)) (CGrid.smul b (fraunhoferInverseN v dx lam k z)) ∧
+    rayleighSommerfeldN (CGrid.add (CGrid.smul a s) (CGrid.smul b t)) dx lam k z
+      = CGrid.add (CGrid.smul a (rayleighSommerfeldN s dx lam k z)) (CGrid.smul b (rayleighSommerfeldN t dx lam k z)) ∧
+    equalSizeAdjustElemN (CGrid.add (CGrid.smul a u) (CGrid.smul b v)) r0 c0 x y
+      = a * equalSizeAdjustElemN u r0 c0 x y + b * equalSizeAdjustElemN v r0 c0 x y ∧
+    fraunhoferInverseN (CGrid.zero : CGrid ℝ n m) dx lam k z = CGrid.zero ∧
+    rayleighSommerfeldN (CGrid.zero : CGrid ℝ n n) dx lam k z = CGrid.zero := by
+  simp only [gen_fraunhoferInverseN_eq, gen_rayleighSommerfeldN_eq, equalSizeAdjustElemN]
+  exact ⟨npFraunhoferInverseWith_linear _ u v a b dx, directSum_linear _ _ s t a b, getN_linear u v a b _ _,
+    npFraunhoferInverseWith_zero _ dx, directSum_zero _ _⟩
+
+/-- the regenerated window of `fraunhofer_equal_size_adjust` is the modelled one: it depends on the shape of the field and on
+    `(dx, λ, z)` only; for a square field rows and columns get the same extent and the same offset -/
+theorem C03_gen_equal_size_window (n m : Nat) (dx lam z : ℝ) :
+    equalSizeWindowN n m dx lam z = equalSizeWindow n m dx lam z ∧
+    (equalSizeWindowN n n dx lam z).1 = (equalSizeWindowN n n dx lam z).2 :=
+  ⟨gen_equalSizeWindowN_eq n m dx lam z, rfl⟩
+
+/-- the factor `fraunhofer_inverse` divides by is the factor `fraunhofer` multiplies by, at the distance `|z|` -/
+theorem C03_gen_fraunhofer_inverse_factor (n m : Nat) (dx lam k z : ℝ) :
+    fraunhoferInvCoefN n m dx lam k z = fraunhoferCoefN n m dx lam k |z| :=
+  gen_fraunhoferInvCoefN_eq n m dx lam k z
 
 end Odak
